@@ -659,8 +659,162 @@ fn replay_tm(_id: u64, b: &J, tick_ns: u64, st: &mut Stats) -> Vec<Mismatch> {
     mism
 }
 
+// ------------------------------------------------------------------------------------------
+// conc: owned guards completed concurrently on several threads (StopwatchConcTrace.tla)
+// ------------------------------------------------------------------------------------------
+#[derive(Clone, Copy)]
+enum Fin {
+    Drop,
+    Stop,
+    Discard,
+}
+
+/// One round: the creating thread starts groups of owned guards (group = guards for one thread
+/// started at the same clock value), advances the clock, then all threads complete their guards at
+/// the same moment; after the join the stopwatch is closed. Two phases per round, sometimes with a
+/// clear in between. Events go to the global trace log.
+fn conc_round(round: u64, seed: u64, threads: usize, guards: usize, tick_ns: u64) -> J {
+    use rand::Rng;
+    use vharness::trace;
+    let mut r = util::rng(seed);
+    let mut clock = Clock::new(tick_ns, 5);
+    let mut sw = Stopwatch::new_from_timesource(clock.source());
+    trace::ev(json!({"ev": "Reset", "round": round}));
+    let mut gid = 0u64;
+    let mut completed = 0u64;
+    let mut panicked = false;
+    for _phase in 0..2 {
+        // start the guards: per thread `guards` of them, in up to 3 groups with clock advances in between
+        let mut per_thread: Vec<Vec<(u64, OwnedTimerGuard, Fin)>> = (0..threads).map(|_| Vec::new()).collect();
+        let mut group_sizes: Vec<(u64, usize, usize)> = Vec::new(); // (group, thread, n)
+        let ngroups = r.random_range(1..=3usize);
+        for gi in 0..ngroups {
+            for (t, mine) in per_thread.iter_mut().enumerate() {
+                let n = if gi + 1 == ngroups { guards - mine.len() } else { r.random_range(0..=(guards - mine.len())) };
+                if n == 0 {
+                    continue;
+                }
+                gid += 1;
+                for _ in 0..n {
+                    let fin = match r.random_range(0..10) {
+                        0 => Fin::Discard,
+                        1 | 2 => Fin::Stop,
+                        _ => Fin::Drop,
+                    };
+                    mine.push((gid, sw.start_owned(), fin));
+                }
+                trace::ev(json!({"ev": "Start", "g": gid, "t": t, "n": n}));
+                group_sizes.push((gid, t, n));
+            }
+            let d = r.random_range(0..=2u64);
+            if d > 0 || gi + 1 == ngroups {
+                let d = d.max(1);
+                clock.advance(d);
+                trace::ev(json!({"ev": "Advance", "d": d}));
+            }
+        }
+        // complete all guards at the same moment on `threads` threads; nothing is logged while they
+        // run (the log's mutex would pace them)
+        let barrier = std::sync::Barrier::new(threads);
+        let results: Vec<Result<Vec<(u64, u64, u64)>, String>> = std::thread::scope(|s| {
+            let hs: Vec<_> = per_thread
+                .into_iter()
+                .map(|mine| {
+                    let barrier = &barrier;
+                    s.spawn(move || {
+                        barrier.wait();
+                        util::catch(move || {
+                            let mut per_group: Vec<(u64, u64, u64)> = Vec::new(); // (group, kept, discarded)
+                            for (g, guard, fin) in mine {
+                                if per_group.last().map(|x| x.0) != Some(g) {
+                                    per_group.push((g, 0, 0));
+                                }
+                                let e = per_group.last_mut().unwrap();
+                                match fin {
+                                    Fin::Drop => {
+                                        drop(guard);
+                                        e.1 += 1
+                                    }
+                                    Fin::Stop => {
+                                        let _ = guard.stop();
+                                        e.1 += 1
+                                    }
+                                    Fin::Discard => {
+                                        guard.discard();
+                                        e.2 += 1
+                                    }
+                                }
+                            }
+                            per_group
+                        })
+                    })
+                })
+                .collect();
+            hs.into_iter().map(|h| h.join().expect("tool: join")).collect()
+        });
+        for (t, res) in results.into_iter().enumerate() {
+            match res {
+                Ok(per_group) => {
+                    for (g, kept, discarded) in per_group {
+                        completed += kept + discarded;
+                        trace::ev(json!({"ev": "Done", "g": g, "t": t, "kept": kept, "discarded": discarded}));
+                    }
+                }
+                // a panic while completing a guard is data: the groups stay open and Close is rejected
+                Err(p) => {
+                    panicked = true;
+                    trace::ev(json!({"ev": "Panic", "t": t, "what": p}));
+                }
+            }
+        }
+        let total = match util::catch(|| (&sw).close()) {
+            Ok(v) => clock.opt_ticks(v),
+            Err(_) => {
+                panicked = true;
+                -3
+            }
+        };
+        trace::ev(json!({"ev": "Close", "total": total}));
+        if r.random_bool(0.3) {
+            sw.clear();
+            trace::ev(json!({"ev": "Clear"}));
+        }
+    }
+    json!({"round": round, "seed": seed, "threads": threads, "guards_per_thread": guards, "completed": completed, "panicked": panicked})
+}
+
+fn cmd_conc(a: &HashMap<String, String>) {
+    use vharness::trace;
+    let rounds = util::arg_u64(a, "rounds", 50);
+    let threads = util::arg_u64(a, "threads", 4) as usize;
+    let guards = util::arg_u64(a, "guards", 200) as usize;
+    let seed = util::arg_u64(a, "seed", 1);
+    let tick_ns = util::arg_u64(a, "tick-ns", 1_000_000);
+    let mut out = std::io::BufWriter::new(std::fs::File::create(util::arg_str(a, "out", "")).expect("create out"));
+    let mut meta = std::io::BufWriter::new(std::fs::File::create(util::arg_str(a, "meta", "")).expect("create meta"));
+    let _ = trace::take();
+    let mut line = 0usize;
+    for round in 1..=rounds {
+        let mut m = conc_round(round, seed.wrapping_mul(1_000_003).wrapping_add(round), threads, guards, tick_ns);
+        let events = trace::take();
+        trace::append_ndjson(&mut out, &events).unwrap();
+        m["id"] = json!(round);
+        m["first_line"] = json!(line + 1);
+        m["last_line"] = json!(line + events.len());
+        m["events"] = json!(events.len());
+        line += events.len();
+        serde_json::to_writer(&mut meta, &m).unwrap();
+        meta.write_all(b"\n").unwrap();
+    }
+    out.flush().unwrap();
+    meta.flush().unwrap();
+}
+
 fn main() {
     let (cmd, a) = util::args();
+    if cmd == "conc" {
+        return cmd_conc(&a);
+    }
     let tick_ns = util::arg_u64(&a, "tick-ns", 1_000_000);
     let inp = std::io::BufReader::new(std::fs::File::open(util::arg_str(&a, "behaviours", "")).expect("open behaviours"));
     let mut out = std::io::BufWriter::new(std::fs::File::create(util::arg_str(&a, "out", "")).expect("create out"));
